@@ -36,7 +36,7 @@ ASSUMPTIONS = ["recv_time is stamped by the client and excluded from the compari
 REQUIRE = {"frames_scripted": 1500, "returned_messages_compared": 400, "documented_errors_checked": 200, "closes_checked": 150}
 CASE_TIMEOUT = 60
 
-KINDS = ["good", "good2", "unsub", "unknown", "unknown_unsub", "bigger", "smaller", "badver", "ver0", "signal", "ack"]
+KINDS = ["good", "good2", "unsub", "unknown", "unknown_unsub", "bigger", "smaller", "badver", "ver0", "signal", "ack", "big_badver", "zero_badver", "unsub_big_badver"]
 T_A, T_B, T_SIG, T_UNSUB, T_UNK, T_UNK2 = 62, 32, 63, 26, 9000, 9001
 
 
@@ -53,18 +53,20 @@ def defs():
 def mk_frame(kind, n, D, tc):
     """returns dict(type, declared, payload, version, bytes)"""
     t = {"good": T_A, "good2": T_B, "unsub": T_UNSUB, "unknown": T_UNK, "unknown_unsub": T_UNK2, "bigger": T_A, "smaller": T_B,
-         "badver": T_A, "ver0": T_B, "signal": T_SIG, "ack": W.MT_ACK}[kind]
+         "badver": T_A, "ver0": T_B, "signal": T_SIG, "ack": W.MT_ACK, "big_badver": T_A, "zero_badver": T_B, "unsub_big_badver": T_UNSUB}[kind]
     size, h = D.get(t, (12, 0))
     ln = size
-    if kind == "bigger":
-        ln = size + 8
+    if kind in ("bigger", "big_badver", "unsub_big_badver"):
+        ln = size + 8 + (8 if kind != "bigger" else 0)
+    elif kind == "zero_badver":
+        ln = 0
     elif kind == "smaller":
         ln = size - 4
     elif kind in ("unknown", "unknown_unsub"):
         ln = 12
     payload = bytes(((n * 37 + i * 11) & 0xFF) or 1 for i in range(ln))
     ver = h
-    if kind == "badver":
+    if kind in ("badver", "big_badver", "zero_badver", "unsub_big_badver"):
         ver = (h ^ 0x5A5A5A5A) or 1
     elif kind in ("ver0", "ack", "signal", "unknown", "unknown_unsub"):
         ver = 0 if kind != "signal" else h
